@@ -262,9 +262,60 @@ def gen_validators() -> str:
     return "\n\n".join(out)
 
 
+# ----------------------------------------------------------------------------- problem configuration validators
+
+PVALIDATORS = [
+    ("Forest", "problems/forest.py", "ForestConfig", "ForestCfgV", {"S": "c.S", "p": "c.p"}, {}),
+    ("DeMoor", "problems/perishable_inventory/de_moor_single_product.py", "DeMoorSingleProductPerishableConfig", "DeMoorCfgV",
+     {"max_demand": "c.maxDemand", "demand_gamma_mean": "c.mean", "demand_gamma_cov": "c.cov", "max_useful_life": "c.m", "lead_time": "c.L", "max_order_quantity": "c.Q"},
+     {"self.issue_policy not in ['fifo', 'lifo']": "c.issueOk = false"}),
+    ("Hendrix", "problems/perishable_inventory/hendrix_two_product.py", "HendrixTwoProductPerishableConfig", "HendrixCfgV",
+     {"max_useful_life": "c.m", "demand_poisson_mean_a": "c.meanA", "demand_poisson_mean_b": "c.meanB", "substitution_probability": "c.rho",
+      "max_order_quantity_a": "c.Qa", "max_order_quantity_b": "c.Qb"}, {}),
+    ("Mirjalili", "problems/perishable_inventory/mirjalili_platelet.py", "MirjaliliPlateletPerishableConfig", "MirjaliliCfgV",
+     {"max_demand": "c.maxDemand", "max_useful_life": "c.m", "max_order_quantity": "c.Q"},
+     {"len(self.weekday_demand_negbin_n) != 7": "c.nLen ≠ 7",
+      "any((n <= 0 for n in self.weekday_demand_negbin_n))": "c.nPos = false",
+      "len(self.weekday_demand_negbin_delta) != 7": "c.dLen ≠ 7",
+      "any((d <= 0 for d in self.weekday_demand_negbin_delta))": "c.dPos = false",
+      "len(self.useful_life_at_arrival_distribution_c_0) != self.max_useful_life - 1": "(c.c0Len : Int) ≠ c.m - 1",
+      "len(self.useful_life_at_arrival_distribution_c_1) != self.max_useful_life - 1": "(c.c1Len : Int) ≠ c.m - 1"}),
+]
+
+
+def gen_problem_validators() -> str:
+    global CFG_FIELDS
+    out = []
+    saved = CFG_FIELDS
+    try:
+        for name, path, cls, struct, fields, atoms in PVALIDATORS:
+            tree = ast.parse((REPO / "src/mdpax" / path).read_text())
+            if not any(isinstance(n, ast.ClassDef) and n.name == cls for n in ast.walk(tree)):
+                raise Untranslatable(f"class {cls} not found")
+            f = find_func(tree, cls, "__post_init__")
+            CFG_FIELDS = fields
+            lines = [f"/-- `{cls}.__post_init__`: the checks in source order -/", f"def pvalidate_{name} (c : {struct}) : Except CfgErr Unit := do"]
+            for st in f.body:
+                if is_doc_or_log(st):
+                    continue
+                if not (isinstance(st, ast.If) and not st.orelse and len(st.body) == 1 and isinstance(st.body[0], ast.Raise)):
+                    raise Untranslatable(f"{cls}.__post_init__: statement `{ast.unparse(st)[:60]}` is not `if …: raise …`")
+                exc = st.body[0].exc
+                ename = exc.func.id if isinstance(exc, ast.Call) and isinstance(exc.func, ast.Name) else None
+                if ename not in ("ValueError", "TypeError"):
+                    raise Untranslatable(f"{cls}.__post_init__ raises `{ast.unparse(exc)[:40]}`")
+                src = ast.unparse(st.test)
+                cond = atoms[src] if src in atoms else vcond(st.test)
+                lines.append(f"  raiseIf ({cond}) .{'valueError' if ename == 'ValueError' else 'typeError'}")
+            out.append("\n".join(lines))
+    finally:
+        CFG_FIELDS = saved
+    return "\n\n".join(out)
+
+
 HEADER = """/- GENERATED by harness/translate.py from /repo's Python source on every run — do not edit.
    Source: src/mdpax/utils/batch_processing.py (BatchProcessor.__init__), src/mdpax/utils/logging.py (get_convergence_format),
-   src/mdpax/solvers/*.py (the five solver configuration validators). -/
+   src/mdpax/solvers/*.py, src/mdpax/problems/**.py (the five solver and four problem configuration validators). -/
 import MdpaxV.Model.Config
 namespace MdpaxV.Gen
 open MdpaxV
@@ -274,7 +325,7 @@ open MdpaxV
 
 def generate() -> tuple[bool, str]:
     """(re)write the generated module; returns (changed, text).  Raises Untranslatable."""
-    text = HEADER + gen_batch_init() + "\n\n" + gen_decimal_places() + "\n\n" + gen_validators() + "\n\nend MdpaxV.Gen\n"
+    text = HEADER + gen_batch_init() + "\n\n" + gen_decimal_places() + "\n\n" + gen_validators() + "\n\n" + gen_problem_validators() + "\n\nend MdpaxV.Gen\n"
     old = OUT.read_text() if OUT.exists() else None
     if old != text:
         OUT.parent.mkdir(parents=True, exist_ok=True)
